@@ -313,6 +313,10 @@ func checkC05(c *Check) {
 	c.Okf("ANCHOR", "collector="+fnName(col), p.pos(col.Pos()), "retrieved list %s{%s,%s}, canonicaliser %s, other users %d",
 		ic.RL.Obj().Name(), ic.mapFld, ic.muFld, fnName(ic.canon), len(ic.users))
 
+	c.Counts["constant_trim_cutsets"] = pathCutsets(c, "PATH-CUTSET", func(pk string) bool {
+		return pk == repoMod+"/pkg/parse" || pk == repoMod+"/pkg/syslutil" || pk == repoMod+"/pkg/loader" || pk == repoMod+"/pkg/mod" || pk == repoMod+"/pkg/importer"
+	})
+
 	// termination of the closure walk: tokens and locks taken by the collector
 	// (and its goroutine closures) are given back on every exit and are not held
 	// while a nested collector call can take them again
